@@ -85,9 +85,11 @@ class LevelAnalysis:
             return self._cache["__mutators__"]
         out = list(MUTATORS)
         known = {self.db.method("PriceLevel", n).defp for n in MUTATORS}
+        # helpers the documented mutators call are analysed through inlining, not as entry points of their own
+        helpers = set(self.ctx.cg.reach(sorted(known)))
         extra = []
         for d, b in sorted(self.db.bodies.items()):
-            if b.kind == "Closure" or d in known or b.argc < 1:
+            if b.kind == "Closure" or d in known or d in helpers or b.argc < 1:
                 continue
             ty = b.locals[1]["ty"].replace("&mut ", "").lstrip("&").strip()
             ty = re.sub(r"^'[a-z_]+ ", "", ty)
@@ -165,7 +167,12 @@ class LevelAnalysis:
                 # parking an order in a local container
                 a = e[2]
                 if len(a) == 2 and self.is_order_term(a[1], facts) and container_local(a[0]) is not None:
-                    out.append(("park", a[1], e))
+                    # parked only if the function drains that container again (set_aside); a container that is never
+                    # drained is a result being collected (`cancelled.push(order)`): the order leaves the book
+                    if self.container_drained(e[4][-1][0], container_local(a[0])[1]):
+                        out.append(("park", a[1], e))
+                    else:
+                        out.append(("handout", a[1], e))
             elif e[0] == "call" and e[1] in ("std::vec::Vec::pop", "std::collections::VecDeque::pop_front", "std::collections::VecDeque::pop_back"):
                 # draining a parked container with `while let Some(o) = set_aside.pop()`
                 res = e[3]
@@ -207,6 +214,45 @@ class LevelAnalysis:
             if isinstance(s, tuple) and s[0] == "havoc" and len(s) == 3 and isinstance(s[2], int):
                 return ("local", s[2])
         return None
+
+    DRAIN_NAMES = {"into_iter", "pop", "drain", "pop_front", "pop_back", "remove", "swap_remove", "iter", "iter_mut", "append", "extend", "retain"}
+
+    def container_drained(self, defp, local):
+        """does the body `defp` ever read orders back out of its local container `local` (iterate / pop / drain it)?"""
+        key = ("drained", defp, local)
+        if key in self._cache:
+            return self._cache[key]
+        b = self.db.bodies.get(defp)
+        res = True     # unknown body: keep the conservative reading (parked)
+        if b is not None:
+            # locals that alias the container: the container itself and references / moves of it
+            alias = {local}
+            changed = True
+            while changed:
+                changed = False
+                for blk in b.blocks:
+                    for st in blk["stmts"]:
+                        if st["k"] != "assign" or st["place"]["p"]:
+                            continue
+                        rv = st["rv"]
+                        src = None
+                        if rv["k"] in ("ref", "rawptr") and not [x for x in rv["place"]["p"] if x["k"] != "deref"]:
+                            src = rv["place"]["l"]
+                        elif rv["k"] in ("use", "cast") and isinstance(rv.get("op"), dict) and rv["op"].get("k") in ("copy", "move") and not rv["op"]["place"]["p"]:
+                            src = rv["op"]["place"]["l"]
+                        if src in alias and st["place"]["l"] not in alias and st["place"]["l"] != 0:
+                            alias.add(st["place"]["l"])
+                            changed = True
+            res = False
+            for bb, t in b.calls():
+                c = t["callee"]
+                if not c or c["name"] not in self.DRAIN_NAMES:
+                    continue
+                for a in t["args"] or []:
+                    if a.get("k") in ("copy", "move") and not [x for x in a["place"]["p"] if x["k"] != "deref"] and a["place"]["l"] in alias:
+                        res = True
+        self._cache[key] = res
+        return res
 
     def is_order_term(self, t, facts):
         if isinstance(t, tuple) and t[0] == "agg" and isinstance(t[1], str) and t[1].endswith("OrderType"):
